@@ -107,7 +107,7 @@ CHECKS["C09"] = dict(
               "traversal.Traverse/GetChunkHashes/GetPyramid are judged by the TLA+ trace spec over address identifiers",
     level_text="TLC exhausts Traversal.tla over every file of up to 2B+B+2 chunks (scaled branching B=2/3: three chunk levels, lone-reference carries, "
                "repeated chunks, four tail classes) and small directories; the generator emits every single-file shape class (1-3 chunks, repeated "
-               "content, empty/1-byte/half/full tail; B, B+1, B+2 chunks with the real B = 8192 only on request, VERIF_C09_BIG=1) and random directories of "
+               "content, empty/1-byte/half/full tail; k*8192+1 / +2 chunks = three chunk levels as hand-written trees of repeated chunks inside directories; streamed > 2 GiB files only on request, VERIF_C09_BIG=1) and random directories of "
                "1-6 files over file-like paths, plain and encrypted; T = W, D in W, P in W, D u P = W are evaluated by TraversalTrace.tla",
     level_note="trusted: TLC, the recording store (logs every Put), the driver's numbering of byte strings; addresses are compared as exact byte "
                "strings (32-byte store addresses); paths are file-like (no trailing '/': the directory walk of GetChunkHashes only lists entries "
@@ -119,12 +119,15 @@ CHECKS["C09"] = dict(
         quick=[_g09("exh", "files", files=1, dir=0, pat=3, enc=0),
                _g09("exh", "files-enc", files=1, dir=0, pat=2, enc=1),
                _g09("sim", "dirs-ab", files=6, dir=1, pat=2, enc=0, alpha=2, num=70, depth=20, max=70, salt=2),
-               _g09("sim", "dirs-enc", files=3, dir=1, pat=1, enc=1, alpha=2, num=6, depth=20, max=6, salt=3)],
+               _g09("sim", "dirs-enc", files=3, dir=1, pat=1, enc=1, alpha=2, num=6, depth=20, max=6, salt=3),
+               # k*8192+1 chunks (lone data chunk carried to the root), written chunk by chunk, in a directory
+               _g09("sim", "hand", files=2, dir=1, pat=1, enc=0, hand=1, handpat=1, handtails=1, alpha=2, num=3, depth=20, max=3, salt=4)],
         thorough=[_g09("exh", "files", files=1, dir=0, pat=3),
                   _g09("exh", "dir1", files=1, dir=1, pat=1, enc=0, aliases=0, max=150),
                   _g09("sim", "dirs", files=6, dir=1, pat=3, enc=0, num=300, depth=20, max=300, salt=1),
                   _g09("sim", "dirs-ab", files=6, dir=1, pat=3, enc=0, alpha=2, num=300, depth=20, max=300, salt=2),
-                  _g09("sim", "dirs-enc", files=6, dir=1, pat=2, enc=1, alpha=2, num=40, depth=20, max=40, salt=3)]),
+                  _g09("sim", "dirs-enc", files=6, dir=1, pat=2, enc=1, alpha=2, num=40, depth=20, max=40, salt=3),
+                  _g09("sim", "hand", files=3, dir=1, pat=2, enc=0, hand=1, handpat=2, num=40, depth=20, max=40, salt=4)]),
     judge=dict(spec="TraversalTrace.tla", cfg="TraversalTrace.cfg"),
     corrupt=_c09_corrupt,
     selftest_scenarios=60,
